@@ -39,6 +39,11 @@ Fixpoint session_eqb (a b : fs_state) : bool :=
   | _, _ => false
   end.
 
+(* the effect of session rid's OWN handlers on its entry (NewProxy adds a proxy name) is not modelled:
+   while that session lives its proxy list is not compared; all other entries are compared exactly *)
+Definition strip_proxies (rid : bytes) (st : fs_state) : fs_state :=
+  map (fun x : fs_session => if bytes_eqb (fst x) rid then (fst x, []) else x) st.
+
 Definition close_code_ok (k : fs_close) (window obs : Z) : bool :=
   match k with
   | KeepOpen => obs =? 0
@@ -131,7 +136,8 @@ Definition check_sys (c : sys_case) : Z :=
           | _ =>
               if negb (if mode =? 1 then zlist_eqb obs_replies expected else zlist_prefix obs_replies expected) then 32
               else if negb (obs_closed =? (if ends then 1 else 0)) then 33
-              else if negb (session_eqb (if ends then fs_del_session rid before else before) after) then 34
+              else if negb (session_eqb (if ends then fs_del_session rid before else strip_proxies rid before)
+                                            (if ends then after else strip_proxies rid after)) then 34
               else if negb a_ping then 35
               else if negb a_tunnel then 36
               else 0
